@@ -46,6 +46,11 @@ NoMemo == [k \in MemoKeys |-> <<>>]          \* <<>> = empty, <<state>> = filled
    (memo is the as-built bookkeeping; the specification never lets it go stale) *)
 SpecQuery(st, i, q) == st                                  \* queries do not change the state
 SpecSwitch(st, i, ch) == [st EXCEPT ![i] = SwitchTrigonal(st[i], ch)]
+(* a request the object cannot honour - a setting switch on a group without hexagonal/rhombohedral choices, or a choice
+   that is neither H nor R - is refused (with or without an exception) and leaves the object as it was *)
+HasHRChoices(number) == number \in {146, 148, 155, 160, 161, 166, 167}
+MustRefuse(number, ch) == ~HasHRChoices(number) \/ ch \notin {"H", "R"}
+SpecRefused(st, i) == st
 SpecCopy(st, i, j) == [k \in DOMAIN st \cup {j} |-> IF k = j THEN st[i] ELSE st[k]]
 
 (* as built: a query fills the memos it reads if empty; a switch leaves them; "cif" is filled at load time *)
